@@ -117,7 +117,10 @@ class TimedMon(LifeCounting):
             self.total_evals += 1
             mine_b = _mine(b, key)
             mine_a = _mine(a, key)
-            protected = bool(subs) or (ts is not None and s - ts < self.E)
+            # "a client may be away for at least the expiration time minus one sweep period"
+            seen = self.last_sub_seen.get(key)
+            away_ok = seen is not None and (s - seen) < (self.E - self.P)
+            protected = bool(subs) or (ts is not None and s - ts < self.E) or away_ok
             idle_since = max([x for x in (ta, self.last_sub_seen.get(key)) if x is not None], default=None)
             must_go = (not subs) and idle_since is not None and (s - idle_since > self.E)
             self.outcome.append([round(s - self.t_start, 1), "sub" if subs else None,
@@ -129,7 +132,8 @@ class TimedMon(LifeCounting):
                     out.append(self.Vp("C12", "sweep-removed-active-or-subscribed-channel",
                                        {"mailbox": list(key), "sweep_at": s, "last_activity": ts, "subscribers": subs,
                                         "diff": rows_diff(mine_b, mine_a), "age": None if ts is None else s - ts},
-                                       {"subscribed": bool(subs), "young": ts is not None and s - ts < self.E}))
+                                       {"subscribed": bool(subs), "young": ts is not None and s - ts < self.E,
+                                        "subscriber_left_recently": away_ok}))
             elif must_go:
                 self.nontrivial = True
                 left = {k: v for k, v in mine_a.items() if v}
